@@ -45,6 +45,7 @@ func main() {
 
 type hOp struct {
 	Op string `json:"op"`
+	O  string `json:"o"` // object, "_" = the object of the (object, scope) pair being replayed
 	N  string `json:"n"`
 	K  string `json:"k"`
 	VK string `json:"vk"` // str | ns | null
@@ -52,13 +53,14 @@ type hOp struct {
 }
 
 type hStep struct {
-	Op hOp        `json:"op"`
-	M  [][]string `json:"m"`
-	R  [][]string `json:"r"`
+	Op hOp          `json:"op"`
+	M  [][][]string `json:"m"` // [object][spelling][cell]
+	R  [][][]string `json:"r"`
 }
 
 type hBeh struct {
 	Steps []hStep  `json:"steps"`
+	Objs  []string `json:"objs"`
 	Sp    []string `json:"sp"`
 	Canon []string `json:"canon"`
 	Keys  []string `json:"keys"`
@@ -153,7 +155,11 @@ func vclStmt(obj string, o hOp) string {
 type store interface {
 	do(obj string, o hOp) error
 	read(name string) (string, error) // "=text" | "!"
+	useScope(scope string)            // switch the scope of the same context (the way the tester does)
 }
+
+// the scope an object is written / read in when several objects of one context are exercised
+var objScope = map[string]string{"req": "recv", "bereq": "miss", "beresp": "fetch", "obj": "error", "resp": "deliver"}
 
 func enc(v value.Value) string {
 	if s, ok := v.(*value.String); ok && s.IsNotSet {
@@ -211,6 +217,8 @@ func (s *vclStore) do(obj string, o hOp) (err error) {
 	_, _, _, err = s.ip.ProcessBlockStatement(st, interpreter.DebugPass, false)
 	return err
 }
+
+func (s *vclStore) useScope(scope string) { s.ip.SetScope(scopes[scope]) }
 
 func (s *vclStore) read(name string) (r string, err error) {
 	defer func() {
@@ -297,6 +305,8 @@ func (s *apiStore) do(obj string, o hOp) (err error) {
 	return fmt.Errorf("unknown op %s", o.Op)
 }
 
+func (s *apiStore) useScope(scope string) { panic("the API binding is built per scope") }
+
 func (s *apiStore) read(name string) (r string, err error) {
 	defer func() {
 		if p := recover(); p != nil {
@@ -327,31 +337,45 @@ func expressible(b *hBeh, api string) bool {
 	return true
 }
 
-func readAll(s store, obj string, b *hBeh) ([][]string, error) {
-	out := make([][]string, len(b.Sp))
-	for i, sp := range b.Sp {
-		row := make([]string, 1+len(b.Keys))
-		for j := 0; j <= len(b.Keys); j++ {
-			k := ""
-			if j > 0 {
-				k = b.Keys[j-1]
-			}
-			v, err := s.read(varName(obj, sp, k))
-			if err != nil {
-				return nil, fmt.Errorf("read %s: %v", varName(obj, sp, k), err)
-			}
-			row[j] = v
+// readAll reads every cell of every object of the behaviour; "_" stands for obj
+func readAll(s store, obj string, b *hBeh) ([][][]string, error) {
+	all := make([][][]string, len(b.Objs))
+	for oi, ob := range b.Objs {
+		if ob == "_" {
+			ob = obj
+		} else {
+			s.useScope(objScope[ob])
 		}
-		out[i] = row
+		out := make([][]string, len(b.Sp))
+		for i, sp := range b.Sp {
+			row := make([]string, 1+len(b.Keys))
+			for j := 0; j <= len(b.Keys); j++ {
+				k := ""
+				if j > 0 {
+					k = b.Keys[j-1]
+				}
+				v, err := s.read(varName(ob, sp, k))
+				if err != nil {
+					return nil, fmt.Errorf("read %s: %v", varName(ob, sp, k), err)
+				}
+				row[j] = v
+			}
+			out[i] = row
+		}
+		all[oi] = out
 	}
-	return out, nil
+	return all, nil
 }
 
-func cellName(b *hBeh, i, j int) string {
-	if j == 0 {
-		return b.Sp[i]
+func cellName(b *hBeh, oi, i, j int) string {
+	p := ""
+	if b.Objs[oi] != "_" {
+		p = b.Objs[oi] + "."
 	}
-	return b.Sp[i] + ":" + b.Keys[j-1]
+	if j == 0 {
+		return p + b.Sp[i]
+	}
+	return p + b.Sp[i] + ":" + b.Keys[j-1]
 }
 
 // runOne executes one behaviour on one (object, scope, binding); appends mismatch / drift items
@@ -359,6 +383,9 @@ func runOne(b *hBeh, p pair, api string, mism, drift *[]map[string]any) {
 	tag := func(m map[string]any, stepIdx int) map[string]any {
 		m["object"], m["scope"], m["api"], m["step"] = p.Obj, p.Scope, api, stepIdx
 		o := b.Steps[stepIdx].Op
+		if o.O != "_" {
+			m["object"], m["scope"] = o.O, "multi"
+		}
 		m["op"], m["op_name"], m["op_key"], m["op_vk"], m["op_value"] = o.Op, o.N, o.K, o.VK, o.V
 		return m
 	}
@@ -379,7 +406,12 @@ func runOne(b *hBeh, p pair, api string, mism, drift *[]map[string]any) {
 		return
 	}
 	for si, st := range b.Steps {
-		if err := s.do(p.Obj, st.Op); err != nil {
+		obj := p.Obj
+		if st.Op.O != "_" {
+			obj = st.Op.O
+			s.useScope(objScope[obj])
+		}
+		if err := s.do(obj, st.Op); err != nil {
 			// the statement is in the domain of the property (a writable header in this scope): it must execute
 			*mism = append(*mism, tag(map[string]any{"obs": "op-error", "got": firstLine(err.Error())}, si))
 			return
@@ -389,37 +421,43 @@ func runOne(b *hBeh, p pair, api string, mism, drift *[]map[string]any) {
 			*mism = append(*mism, tag(map[string]any{"obs": "read-error", "got": firstLine(err.Error())}, si))
 			return
 		}
-		for i := range b.Sp {
-			for j := 0; j <= len(b.Keys); j++ {
-				got := after[i][j]
-				// requirement layer
-				switch r := st.R[i][j]; {
-				case r == "?":
-				case r == "~":
-					if got != before[i][j] {
-						*mism = append(*mism, tag(map[string]any{"obs": "frame", "cell": cellName(b, i, j),
-							"cell_kind": cellKind(j), "expected": before[i][j], "got": got}, si))
-					}
-				default:
-					if got != r {
-						*mism = append(*mism, tag(map[string]any{"obs": "readback", "cell": cellName(b, i, j),
-							"cell_kind": cellKind(j), "expected": r, "got": got}, si))
-					}
-				}
-				// spelling law: every spelling of one header reads alike
-				for i2 := 0; i2 < i; i2++ {
-					if b.Canon[i2] == b.Canon[i] {
-						if after[i2][j] != got {
-							*mism = append(*mism, tag(map[string]any{"obs": "spelling", "cell": cellName(b, i, j),
-								"cell_kind": cellKind(j), "other": cellName(b, i2, j), "expected": after[i2][j], "got": got}, si))
+		for oi := range b.Objs {
+			for i := range b.Sp {
+				for j := 0; j <= len(b.Keys); j++ {
+					got := after[oi][i][j]
+					// requirement layer
+					switch r := st.R[oi][i][j]; {
+					case r == "?":
+					case r == "~":
+						if got != before[oi][i][j] {
+							kind := "frame"
+							if b.Objs[oi] != "_" && b.Objs[oi] != st.Op.O {
+								kind = "frame-object"
+							}
+							*mism = append(*mism, tag(map[string]any{"obs": kind, "cell": cellName(b, oi, i, j),
+								"cell_kind": cellKind(j), "expected": before[oi][i][j], "got": got}, si))
 						}
-						break
+					default:
+						if got != r {
+							*mism = append(*mism, tag(map[string]any{"obs": "readback", "cell": cellName(b, oi, i, j),
+								"cell_kind": cellKind(j), "expected": r, "got": got}, si))
+						}
 					}
-				}
-				// mechanism layer
-				if got != st.M[i][j] {
-					*drift = append(*drift, tag(map[string]any{"obs": "mechanism-readback", "cell": cellName(b, i, j),
-						"expected": st.M[i][j], "got": got}, si))
+					// spelling law: every spelling of one header reads alike
+					for i2 := 0; i2 < i; i2++ {
+						if b.Canon[i2] == b.Canon[i] {
+							if after[oi][i2][j] != got {
+								*mism = append(*mism, tag(map[string]any{"obs": "spelling", "cell": cellName(b, oi, i, j),
+									"cell_kind": cellKind(j), "other": cellName(b, oi, i2, j), "expected": after[oi][i2][j], "got": got}, si))
+							}
+							break
+						}
+					}
+					// mechanism layer
+					if got != st.M[oi][i][j] {
+						*drift = append(*drift, tag(map[string]any{"obs": "mechanism-readback", "cell": cellName(b, oi, i, j),
+							"expected": st.M[oi][i][j], "got": got}, si))
+					}
 				}
 			}
 		}
@@ -448,7 +486,7 @@ func opsKey(b *hBeh) string {
 	var sb strings.Builder
 	for _, st := range b.Steps {
 		o := st.Op
-		fmt.Fprintf(&sb, "%s %s:%s %s %q;", o.Op, o.N, o.K, o.VK, o.V)
+		fmt.Fprintf(&sb, "%s %s.%s:%s %s %q;", o.Op, o.O, o.N, o.K, o.VK, o.V)
 	}
 	return sb.String()
 }
@@ -485,7 +523,18 @@ func c17Replay(args []string) int {
 		n++
 		var mism, drift []map[string]any
 		runs := 0
+		multi := len(b.Objs) > 0 && b.Objs[0] != "_"
+		if multi {
+			// several objects of ONE context: VCL statements, the scope switched per object
+			if expressible(&b, "vcl") {
+				runOne(&b, pair{"req", "recv"}, "vcl", &mism, &drift)
+				runs++
+			}
+		}
 		for pi, p := range pairs {
+			if multi {
+				break
+			}
 			if pi >= 2 && *every > 1 && (n+pi)%*every != 0 {
 				continue
 			}
